@@ -21,6 +21,7 @@ import (
 	"runtime"
 	"strings"
 	"sync"
+	"sync/atomic"
 	"time"
 
 	"github.com/markkurossi/mpc/circuit"
@@ -111,9 +112,15 @@ func sessMode(args []string) {
 	}
 	sem := make(chan struct{}, workers)
 	var wg sync.WaitGroup
+	var timeouts int32
 	for idx := 0; idx < cf.N; idx++ {
 		r := root.Fork()
 		if cf.Only >= 0 && idx != cf.Only {
+			continue
+		}
+		if atomic.LoadInt32(&timeouts) >= 3 {
+			// systematic hang: every further session would sit out its deadline
+			o.Count("sessions_skipped_after_3_timeouts")
 			continue
 		}
 		pc := pickCase(r, idx, corp)
@@ -126,7 +133,10 @@ func sessMode(args []string) {
 			pc.circ = c
 		}
 		n := len(pc.circ.Inputs)
-		cfg := &sessCfg{idx: idx, pc: pc, deadline: 90 * time.Second}
+		cfg := &sessCfg{idx: idx, pc: pc, deadline: 60 * time.Second}
+		if cf.Tier == "thorough" {
+			cfg.deadline = 120 * time.Second
+		}
 		for p := 0; p < n; p++ {
 			cfg.inputs = append(cfg.inputs, randInput(r, int(pc.circ.Inputs[p].Type.Bits)))
 		}
@@ -165,6 +175,9 @@ func sessMode(args []string) {
 			defer wg.Done()
 			defer func() { <-sem }()
 			j.so = runSession(j.cfg)
+			if j.so.timeout != "" {
+				atomic.AddInt32(&timeouts, 1)
+			}
 		}()
 	}
 	wg.Wait()
